@@ -1002,7 +1002,10 @@ impl<'a> JoinOutput<'a> {
                         prev_def_stream
                             .map(|prev| quote! { #prev #def_stream })
                             .or(def_stream),
-                        quote! { #initial_expr },
+                        //
+                        // Wrapped into parens because postfix actions (`.map(..)`, `.await` etc.) are appended to it.
+                        //
+                        quote! { (#initial_expr) },
                     )
                 }
             }
